@@ -24,6 +24,8 @@ import Pandora.Bridge.InstLoop
 import Pandora.Bridge.C03DoAt
 import Pandora.Proofs.C03Await
 import Pandora.Bridge.C03Await
+import Pandora.Proofs.C03Start
+import Pandora.Bridge.C03Start
 
 namespace Pandora.Props.C03
 open Pandora.Model.C03 Pandora.Proofs.C03
@@ -381,6 +383,74 @@ theorem C03_source_await (s : ASt) (r : Res) :
 
 end Await
 
+/-! ### who is started: `startInstances`, and "pool over" = every started instance has left `Run` -/
+
+section Start
+open Pandora.Model.C03Start Pandora.Proofs.C03Start Pandora.Model.C03Await Pandora.Proofs.C03Await
+
+/-- **one run result per started instance**: for EVERY sequence of answers of the startup schedule / start context
+(`waiter.Wait(startCtx)`: true any number of times, then false or exhausted) and both outcomes of the creation of the
+first instance, `startInstances` returns, the goroutines it has launched — each sends exactly one run result, after `Run`
+of its instance has returned — are exactly one per id `0 … started-1`, `started` is the number of leading `true` answers
+(0 if the first instance could not be created), and its error is the start context's unless that creation failed -/
+theorem C03_start_one_result_per_started (answers : List Bool) (firstOk : Bool) :
+    let o := starter answers firstOk
+    o.bad = false ∧ o.returned = true ∧ o.launched = List.range o.started ∧
+    o.started = (if firstOk then allowed answers else 0) ∧
+    o.err = (if 0 < allowed answers ∧ firstOk = false then SErr.newInstance else SErr.ctx) :=
+  starter_spec answers firstOk
+
+/-- **"the pool is over" means "every started instance has left `Run`"**: let the instances be started by
+`startInstances` (any answers of the startup schedule), let the bookkeeping receive ANY sequence of results in any order
+in which the start result carries what `startInstances` returned and the run results are sent by the goroutines it
+launched (each at most once, so at most one per launched goroutine).  If the loop of `awaitRun` is over then the number of
+run results awaited EQUALS the number of goroutines launched: every launched instance has sent its result, i.e. its `Run`
+has returned (`C03_source_start`: the value sent is computed by `Run`) — the state the accounting theorems call
+`terminal`; and the run context was cancelled exactly once, not before that -/
+theorem C03_pool_over_all_returned (answers : List Bool) (firstOk : Bool) (rs : List Res) (s : ASt)
+    (h : arun ainit rs = some s)
+    (hstart : ∀ r ∈ rs, r.chan = .start → r.started = (starter answers firstOk).started)
+    (hruns : cnt .run rs ≤ (starter answers firstOk).launched.length)
+    (hover : s.over = true) :
+    s.awaited = (starter answers firstOk).launched.length ∧ s.awaited = (starter answers firstOk).started ∧
+    cnt .run rs = (starter answers firstOk).started ∧ s.runCancels = 1 := by
+  have hspec := starter_spec answers firstOk
+  simp only at hspec
+  obtain ⟨_, _, hl, _, _⟩ := hspec
+  have hlen : (starter answers firstOk).launched.length = (starter answers firstOk).started := by
+    rw [hl, List.length_range]
+  have hi := reach_inv h
+  have hclosed := (over_iff hi).mp hover
+  have haw : s.awaited = cnt .run rs := by
+    have := awaited_count rs ainit s h
+    simpa [ainit] using this
+  have hst : s.started = ((starter answers firstOk).started : Int) :=
+    started_from_start_result _ rs ainit s h hstart (fun hh => by simp [ainit] at hh) hclosed.2.2.1
+  have hge : s.started ≤ (s.awaited : Int) := (hi.closed.mp hclosed.2.2.2).2
+  have hc := hi.cancels
+  rw [hclosed.2.2.2] at hc
+  refine ⟨by omega, by omega, by omega, by simpa using hc⟩
+
+/-- `startInstances`, `runNewInstance`, what `runAsync` launches and the factory the plugin registry builds,
+REGENERATED from the current source: executing the regenerated statements of `startInstances` is the model's `starter` for
+every sequence of answers; an instance's run result is what its `Run` returned; the pool launches the provider, the
+aggregator and the starter, each sending exactly one result on its own channel, the start context is a child of
+the run context; a factory built for a registered constructor decodes the config and calls the constructor at every call -/
+theorem C03_source_start (answers : List Bool) (firstOk : Bool) :
+    execStart Pandora.Gen.InstLoop.startPre Pandora.Gen.InstLoop.startLoop Pandora.Gen.InstLoop.startPost answers firstOk =
+      starter answers firstOk ∧
+    Pandora.Gen.InstLoop.runNewInstanceRunsThenCloses = true ∧
+    Pandora.Gen.InstLoop.runAsyncGoroutines =
+      ["chan:aggregatorErr <- Aggregator.Run(ctx:run)",
+       "chan:providerErr <- Provider.Run(ctx:run)",
+       "chan:startRes <- startResult{startInstances(ctx:instanceStart, ctx:run, chan:runRes)}"] ∧
+    Pandora.Gen.InstLoop.runAsyncContexts = ["instanceStart = WithCancel(ctx:run)", "run = WithCancel(ctx:pool)"] ∧
+    Pandora.Gen.InstLoop.factoryPerCall = ["getMaybeConf", "newPlugin.Call"] :=
+  ⟨Pandora.Bridge.C03Start.start_exec_eq answers firstOk, Pandora.Bridge.C03Start.run_result_after_run,
+   Pandora.Bridge.C03Start.runAsync_eq.1, Pandora.Bridge.C03Start.runAsync_eq.2, Pandora.Bridge.C03Start.factory_per_call⟩
+
+end Start
+
 /-! ### non-vacuity: each hypothesis is met by a concrete non-trivial run -/
 
 -- shared once(1), 2 ammo, two instances started one after the other; the second acquires an item that goes unfired;
@@ -476,6 +546,33 @@ example : Pandora.Model.C03Await.stepBy
     { chan := .run, outOfAmmo := true } ≠
     (Pandora.Model.C03Await.astep Pandora.Model.C03Await.ainit { chan := .run, outOfAmmo := true }).map (fun s' => (s', false)) := by
   decide
+
+-- `C03_start_one_result_per_started`: the startup schedule gives three tokens, then the start is over: 3 started,
+-- goroutines for ids 0, 1, 2, the start context's error
+example : (Pandora.Model.C03Start.starter [true, true, true, false] true).started = 3 ∧
+    (Pandora.Model.C03Start.starter [true, true, true, false] true).launched = [0, 1, 2] ∧
+    (Pandora.Model.C03Start.starter [true, true, true, false] true).err = .ctx := by decide
+
+-- … the first instance cannot be created: nothing started, nothing launched, that error
+example : (Pandora.Model.C03Start.starter [true, true] false).started = 0 ∧
+    (Pandora.Model.C03Start.starter [true, true] false).launched = [] ∧
+    (Pandora.Model.C03Start.starter [true, true] false).err = .newInstance := by decide
+
+-- `C03_pool_over_all_returned`: its hypotheses are met by 2 started instances whose results arrive around the start result
+example : ∃ s, Pandora.Model.C03Await.arun Pandora.Model.C03Await.ainit
+      [{ chan := .run }, { chan := .start, started := 2 }, { chan := .provider }, { chan := .run }, { chan := .aggregator }] = some s ∧
+    s.over = true ∧ (Pandora.Model.C03Start.starter [true, true] true).started = 2 ∧
+    Pandora.Proofs.C03Await.cnt .run
+      [{ chan := .run }, { chan := .start, started := 2 }, { chan := .provider }, { chan := .run }, { chan := .aggregator }] ≤
+      (Pandora.Model.C03Start.starter [true, true] true).launched.length := by
+  refine ⟨_, rfl, by decide, by decide, by decide⟩
+
+-- the statement language can tell a wrong starter: a loop that launches a goroutine without counting it reports
+-- fewer instances than it has launched (the pool would be "over" while an instance still runs)
+example : (Pandora.Model.C03Start.execStart Pandora.Model.C03Start.startPre [.bindId, .goRunNew] Pandora.Model.C03Start.startPost
+    [true, true, false] true).started = 1 ∧
+    (Pandora.Model.C03Start.execStart Pandora.Model.C03Start.startPre [.bindId, .goRunNew] Pandora.Model.C03Start.startPost
+    [true, true, false] true).launched = [0, 1] := by decide
 
 -- a mutated iteration body (Wait before Acquire) is NOT accepted: the bridge obligation is falsifiable
 example : Pandora.Model.C03Loop.bodyAccepted
